@@ -336,7 +336,83 @@ Theorem compare_semantics o path n :
              eval_stmt (mkStmt path 5 (RStr t)) o = false).
 Proof.
   intros H. unfold eval_stmt; cbn [s_path s_op s_ref]. rewrite H. split.
-  - intros m. cbn. unfold py_eq, py_cmp; cbn.
+  - intros m. cbn. unfold py_eq, py_cmp; cbn. rewrite Z.mul_1_r.
     destruct (Z.compare_spec n m); repeat split; intros; try lia; try discriminate; try reflexivity.
   - intros t. cbn. repeat split.
+Qed.
+
+(* a float reference value num/den (den > 0): the six comparison operators on an integer attribute compare the
+   exact values, n ? num/den  iff  n*den ? num *)
+Theorem compare_semantics_float o path n :
+  attr o path = Some (JInt n) ->
+  forall num den txt, 0 < den ->
+    (eval_stmt (mkStmt path 0 (RFlt num den txt)) o = true <-> n * den = num) /\
+    (eval_stmt (mkStmt path 1 (RFlt num den txt)) o = true <-> n * den <> num) /\
+    (eval_stmt (mkStmt path 2 (RFlt num den txt)) o = true <-> n * den > num) /\
+    (eval_stmt (mkStmt path 3 (RFlt num den txt)) o = true <-> n * den < num) /\
+    (eval_stmt (mkStmt path 4 (RFlt num den txt)) o = true <-> n * den >= num) /\
+    (eval_stmt (mkStmt path 5 (RFlt num den txt)) o = true <-> n * den <= num).
+Proof.
+  intros H num den txt Hd. unfold eval_stmt; cbn [s_path s_op s_ref]. rewrite H.
+  cbn. unfold py_eq, py_cmp; cbn.
+  destruct (Z.compare_spec (n * den) num); repeat split; intros; try lia; try discriminate; try reflexivity.
+Qed.
+
+(* ---- reference values of equal value and different type ---------------------------------- *)
+Lemma rnum_wf r n d : rv_wf r -> rnum r = Some (n, d) -> 0 < d.
+Proof. destruct r; cbn; intros W E; inversion E; subst; try lia. Qed.
+
+Lemma py_eq_same_number v r1 r2 :
+  rv_wf r1 -> rv_wf r2 -> same_number r1 r2 -> py_eq v r1 = py_eq v r2.
+Proof.
+  intros W1 W2 S. unfold same_number in S.
+  destruct (rnum r1) as [[n1 d1]|] eqn:E1; [|contradiction].
+  destruct (rnum r2) as [[n2 d2]|] eqn:E2; [|contradiction].
+  pose proof (rnum_wf _ _ _ W1 E1). pose proof (rnum_wf _ _ _ W2 E2).
+  unfold py_eq. rewrite E1, E2.
+  destruct (num_of v) as [a|].
+  - apply eq_true_iff_eq. rewrite !Z.eqb_eq. split; intros; nia.
+  - destruct v; try reflexivity. destruct r1; try discriminate; destruct r2; try discriminate; reflexivity.
+Qed.
+
+Lemma py_cmp_same_number v r1 r2 :
+  rv_wf r1 -> rv_wf r2 -> same_number r1 r2 -> py_cmp v r1 = py_cmp v r2.
+Proof.
+  intros W1 W2 S. unfold same_number in S.
+  destruct (rnum r1) as [[n1 d1]|] eqn:E1; [|contradiction].
+  destruct (rnum r2) as [[n2 d2]|] eqn:E2; [|contradiction].
+  pose proof (rnum_wf _ _ _ W1 E1). pose proof (rnum_wf _ _ _ W2 E2).
+  unfold py_cmp. rewrite E1, E2.
+  destruct (num_of v) as [a|].
+  - f_equal.
+    destruct (Z.compare_spec (a * d1) n1); destruct (Z.compare_spec (a * d2) n2); try reflexivity; exfalso; nia.
+  - destruct v; try reflexivity. destruct r1; try discriminate; destruct r2; try discriminate; reflexivity.
+Qed.
+
+Lemma existsb_same_number vs r1 r2 :
+  rv_wf r1 -> rv_wf r2 -> same_number r1 r2 ->
+  existsb (fun e => py_eq e r1) vs = existsb (fun e => py_eq e r2) vs.
+Proof.
+  intros W1 W2 S. induction vs as [|e vs IH]; [reflexivity|]. cbn.
+  rewrite (py_eq_same_number e r1 r2 W1 W2 S), IH. reflexivity.
+Qed.
+
+(* the type of a reference value does not matter to ==, !=, >, <, >=, <= nor to like / notlike on anything but a
+   string: reference values denoting the same number are interchangeable there ... *)
+Theorem same_number_interchangeable v r1 r2 op :
+  rv_wf r1 -> rv_wf r2 -> same_number r1 r2 ->
+  (0 <= op <= 5 \/ (forall s, v <> JStr s)) ->
+  apply_op op v r1 = apply_op op v r2.
+Proof.
+  intros W1 W2 S Hop.
+  assert (Hl : (forall s, v <> JStr s) -> like v r1 = like v r2).
+  { intros Hs. destruct v; try reflexivity.
+    - exfalso. now apply (Hs s).
+    - cbn. apply existsb_same_number; assumption. }
+  unfold apply_op.
+  rewrite (py_eq_same_number v r1 r2 W1 W2 S), (py_cmp_same_number v r1 r2 W1 W2 S).
+  destruct (op =? 0) eqn:?; [reflexivity|]. destruct (op =? 1) eqn:?; [reflexivity|].
+  destruct (op =? 2) eqn:?; [reflexivity|]. destruct (op =? 3) eqn:?; [reflexivity|].
+  destruct (op =? 4) eqn:?; [reflexivity|]. destruct (op =? 5) eqn:?; [reflexivity|].
+  destruct Hop as [Hop|Hs]; [lia|]. rewrite (Hl Hs). reflexivity.
 Qed.
